@@ -356,6 +356,13 @@ pub fn productions() -> Vec<Prod> {
         X "m_fn_kinds"   "fn(x_1, a/b, pi, ->, \\#)";
         X "m_fn_primes"  "ff'(‹X›)";
         X "m_fn_nested"  "fn(gn(‹X›), ‹X›)";
+        // argument ends that must not touch the separator: a backslash, a hashed expression
+        X "m_fn_bs_end"  "fn(‹X› \\ )";
+        X "m_fn_bs_comma" "fn(‹X› \\ , ‹X›)";
+        X "m_fn_bs_semi" "fn(‹X›, ‹X› \\ ; ‹X›)";
+        X "m_fn_hash_semi" "fn(‹X› #a ; ‹X›)";
+        X "m_fn_hash_comma" "fn(#a , ‹X›)";
+        X "m_fn_hash_end" "fn(‹X›, #a )";
         X "m_field_attach" "arrow.r_‹X›";
         X "m_hash_let"   "#let v = 1; ‹X›";
         X "m_sub"        "x_‹X›";
